@@ -4,6 +4,7 @@ import Glas.Model.ScopeCmd
 import Glas.Model.PrattCmd
 import Glas.Model.SearchCmd
 import Glas.Model.ServerCmd
+import Glas.Model.ProjectCmd
 /-! The executable model behind a one-line-in, one-line-out protocol (tab-separated fields). -/
 open Glas
 
@@ -26,7 +27,10 @@ def dispatch (line : String) : String :=
           | none =>
             match ServerCmd.run args with
             | some r => r
-            | none => "bad-op"
+            | none =>
+              match ProjectCmd.run args with
+              | some r => r
+              | none => "bad-op"
 
 partial def loop (h : IO.FS.Stream) (out : IO.FS.Stream) : IO Unit := do
   let line ← h.getLine
